@@ -887,3 +887,34 @@ func (p *Prog) classifyValueUses(v ssa.Value, base Access, must *Locks) []Access
 	}
 	return out
 }
+
+// MayAcquire returns the lock classes fn may acquire, transitively through the
+// repo-internal call edges (static, interface via CHA, closures, go, defer).
+func (l *Locks) MayAcquire(fn *ssa.Function) map[string]bool {
+	out := map[string]bool{}
+	seen := map[*ssa.Function]bool{}
+	var walk func(f *ssa.Function)
+	walk = func(f *ssa.Function) {
+		if seen[f] {
+			return
+		}
+		seen[f] = true
+		for _, b := range f.Blocks {
+			for _, in := range b.Instrs {
+				if ci, ok := in.(ssa.CallInstruction); ok {
+					if op := lockOpOf(ci.Common()); op != nil && op.Acquire {
+						out[op.Class] = true
+					}
+				}
+			}
+		}
+		for _, e := range l.Edges[f] {
+			walk(e.Callee)
+		}
+		for _, a := range f.AnonFuncs {
+			walk(a)
+		}
+	}
+	walk(fn)
+	return out
+}
